@@ -1767,6 +1767,14 @@ func (vc *VC) declareSpecFn(sf *SpecFn) {
 			body = env.termOrLoad(v)
 		}
 	}()
+	for comp := range env.st.heap.known {
+		// a defined function is state-independent: a body that reads mutable memory (pointed-to structs, backing
+		// arrays, maps) would be evaluated in one fixed unknown heap - it has to be a macro
+		if strings.HasPrefix(comp, "P:") || strings.HasPrefix(comp, "A:") || strings.HasPrefix(comp, "M:") {
+			vc.errorf("%s:%d: spec fn %s reads the heap (%s): declare it 'spec macro fn'", shortPath(sf.File), sf.Line, sf.Name, comp)
+			break
+		}
+	}
 	kw := "define-fun"
 	if sf.Rec {
 		kw = "define-fun-rec"
